@@ -10,7 +10,8 @@ from lib import core
 from lib.core import cz, czl
 from harness import common, sess, smppref
 
-THEOREMS = ['C09_reassembly_any_order', 'C09_join_in_numeric_order', 'C09_nonvacuous']
+THEOREMS = ['C09_reassembly_any_order', 'C09_join_in_numeric_order', 'C09_nonvacuous',
+            'C09_store_empty_when_complete', 'C09_reference_free_after_completion', 'C09_reuse_nonvacuous']
 IMPORTS = ['AV.Model.Base', 'AV.Model.PyDict', 'AV.Model.Reassembly']
 
 
@@ -167,6 +168,28 @@ def gen_family(rng, thorough):
     return msgs, arrivals
 
 
+def gen_successors(rng, msgs, arrivals):
+    """A second family under the SAME references (and methods), arriving after the first one is complete: other texts, another
+    number of segments (C09_reference_free_after_completion: the later stream is treated as by a fresh correlator)."""
+    msgs2 = []
+    for m in msgs:
+        parts = [p + '!' for p in reversed(m['parts'])]
+        if len(parts) > 2 and rng.random() < 0.5:
+            parts = parts[:-1]
+        elif len(parts) < 255:
+            parts = parts + ['+']
+        msgs2.append(dict(m, parts=parts, payload=rng.random() < 0.3))
+    queues = []
+    for mi, m in enumerate(msgs2):
+        order = list(range(len(m['parts'])))
+        rng.shuffle(order)
+        queues.append([(len(msgs) + mi, s) for s in order])
+    arrivals2 = []
+    while any(queues):
+        arrivals2.append(rng.choice([qu for qu in queues if qu]).pop(0))
+    return msgs + msgs2, arrivals + arrivals2
+
+
 def gen_gaps(rng):
     if rng.random() < 0.4:
         return None
@@ -219,7 +242,7 @@ def check_family(ctx, msgs, arrivals, cases, gaps=None, restart_after=None):
 def run(ctx):
     ctx.rule = ('families of 1-3 concurrent messages with distinct references (SAR TLVs, UDH 8-bit, UDH 16-bit; GSM with extension characters and UCS2 '
                 'with surrogate pairs; text in short_message or message_payload), 2..40 (thorough: ..255) segments, shuffled/reversed/in-order arrival, '
-                'random interleaving; plus every permutation of 2..5 segments (thorough 6); distinct by PDU stream; non-trivial = more than 2 segments')
+                'random interleaving; one family in four followed by a second family under the same references; plus every permutation of 2..5 segments (thorough 6); distinct by PDU stream; non-trivial = more than 2 segments')
     ctx.trusted_base = ['Coq 8.16.1 kernel; no axioms', 'harness/smppref.py independent encoder (SMPP 3.4 / 3GPP 23.040)',
                         'correspondence harness harness/C09.py + sess.py (fake stream reader/transport, recording hook)']
     ctx.assumptions = ['no segment arrives twice; references of concurrently incomplete messages are distinct (the property\'s domain)',
@@ -230,6 +253,9 @@ def run(ctx):
     n = 2000 if ctx.thorough else 90
     for i in range(n):
         msgs, arrivals = gen_family(rng, ctx.thorough)
+        if rng.random() < 0.25:
+            msgs, arrivals = gen_successors(rng, msgs, arrivals)
+            ctx.count('references_used_again_after_completion')
         gaps = gen_gaps(rng)
         ctx.count('with_time_passing' if gaps else 'clock_untouched')
         # one family in five with a persistence directory and a restart of the process somewhere in the stream
